@@ -83,7 +83,9 @@ type event struct {
 	Err    bool     `json:"err"`
 	Errt   string   `json:"errt"`
 	Leaked int      `json:"leaked"`
-	Where  []string `json:"where"`
+	Where  []string `json:"where"` // "state @ innermost frame of the code under test" of every goroutine left
+	Wst    []string `json:"wst"`   // its wait state (chan send, chan receive, select, ...)
+	Wpkg   []string `json:"wpkg"`  // package of that frame (storage/memoization, bql/planner, ...)
 }
 
 var (
@@ -297,7 +299,7 @@ func runPlans(plansPath string) {
 			}
 			stats["watchdog_fired"]++
 		}
-		base := event{Run: run, Stmt: p.Stmt, Cfg: p.Cfg, Ptype: pl.Type(), At: p.At, Mode: p.Mode, J: p.J, Where: []string{}}
+		base := event{Run: run, Stmt: p.Stmt, Cfg: p.Cfg, Ptype: pl.Type(), At: p.At, Mode: p.Mode, J: p.J, Where: []string{}, Wst: []string{}, Wpkg: []string{}}
 		e := base
 		e.Ev, e.Meth, e.Kind = "Start", p.Meth, p.Kind
 		tw.Emit(e)
@@ -329,10 +331,11 @@ func runPlans(plansPath string) {
 			}
 			tw.Emit(e)
 		}
-		left := settle(2 * time.Second)
+		// a goroutine of a finished statement ends within microseconds; one that is still there after
+		// a second (looked at twice) is waiting for something that will not come
+		left := settle(time.Second)
 		if left != nil {
-			// look again after the same bound before it counts
-			left = settle(2 * time.Second)
+			left = settle(time.Second)
 		}
 		e = base
 		e.Ev, e.Leaked = "After", len(left)
@@ -340,6 +343,17 @@ func runPlans(plansPath string) {
 			id := strings.SplitN(l, " ", 2)
 			ignored[id[0]] = true
 			e.Where = append(e.Where, id[1])
+			sf := strings.SplitN(id[1], " @ ", 2)
+			pkg := sf[1]
+			if i := strings.LastIndex(pkg, "/"); i >= 0 {
+				if k := strings.Index(pkg[i:], "."); k >= 0 {
+					pkg = pkg[:i+k]
+				}
+			} else if k := strings.Index(pkg, "."); k >= 0 {
+				pkg = pkg[:k]
+			}
+			e.Wst = append(e.Wst, sf[0])
+			e.Wpkg = append(e.Wpkg, pkg)
 		}
 		tw.Emit(e)
 		stats["runs"]++
